@@ -297,7 +297,8 @@ def py_eq(a, b):
     ta, tb = type(a), type(b)
     if ta is SymName or tb is SymName:
         if ta is SymName and tb is SymName:
-            return _Cur.ctx.decide(a.t == b.t)
+            from .spec import Z3Ops
+            return _Cur.ctx.decide(Z3Ops.eq(a.t, b.t))
         # ASSUMPTION NAMES: symbolic parameter names differ from every string literal of sigtools
         return False
     if ta is SymRef or tb is SymRef:
